@@ -19,11 +19,12 @@ fn fresh() -> Exec {
 fn handle_positions(toks: &[&str]) -> (Vec<usize>, bool) {
     match toks[0] {
         "node" => (vec![2, 3], false),
-        "not" | "low" | "high" | "onesat" | "paths" | "size" | "bracket" | "satcount" | "subst" | "substm" | "cofcube" | "topcof" => (vec![1], false),
+        "not" | "low" | "high" | "onesat" | "paths" | "pathsi.open" | "size" | "bracket" | "satcount" | "subst" | "substm" | "cofcube" | "topcof" => (vec![1], false),
         "ite" | "itec" => (vec![1, 2, 3], false),
         "and" | "or" | "xor" | "eq" | "imply" | "constrain" | "restrict" | "implies" => (vec![1, 2], false),
         "compose" => (vec![1, 3], false),
         "andmany" | "ormany" | "desc" | "gc" | "dot" => ((1..toks.len()).collect(), true),
+        "heldgc" => ((2..toks.len()).collect(), true),
         _ => (vec![], false),
     }
 }
